@@ -55,7 +55,8 @@ var quietLog = []string{"logger.Log.", "fmt.", "errors.New", "time.Since", "(tim
 func writerHarness(w *World, pw *ssa.Function) (*Harness, string, string, error) {
 	in := w.writerInputs(pw)
 	pVb, pOff, pDirty := in.vb, in.off, in.dirty
-	if pVb == nil || pOff == nil || pDirty == nil {
+	_, isMode := w.writerModeConst(pw)
+	if pVb == nil || pOff == nil || (pDirty == nil && !isMode) {
 		return nil, "", "", fmt.Errorf("cannot identify (vbID, offset, dirty) parameters of %s", fname(pw))
 	}
 	off := pOff.Name()
@@ -65,7 +66,7 @@ func writerHarness(w *World, pw *ssa.Function) (*Harness, string, string, error)
 			{Atoms: []string{off + ".SeqNo", "cur.SeqNo"}, Unsigned: true},
 			{Atoms: []string{pVb.Name()}, Unsigned: true},
 		},
-		Bools:    []string{pDirty.Name(), "inRange", "found"},
+		Bools:    writerBools(pDirty),
 		NoInline: map[string]bool{"(*models.VbIDRange).In": true},
 		Quiet:    quietLog,
 	}
@@ -83,6 +84,25 @@ func writerHarness(w *World, pw *ssa.Function) (*Harness, string, string, error)
 		return nil, false
 	}
 	return h, off, pVb.Name(), nil
+}
+
+// writerBools: the boolean inputs of the writer's evaluation; a mode of a split writer has no dirty input.
+func writerBools(dirty *vparam) []string {
+	if dirty == nil {
+		return []string{"inRange", "found"}
+	}
+	return []string{dirty.Name(), "inRange", "found"}
+}
+
+// writerDirty: the dirty flag of a writer call in an abstract state — the input, or the constant a mode stands for.
+func (w *World) writerDirty(pw *ssa.Function) func(st *State) bool {
+	if in := w.writerInputs(pw); in.dirty != nil {
+		name := in.dirty.Name()
+		return func(st *State) bool { return st.B(name) }
+	}
+	w.positionWriterFuncs()
+	m := w.pwMode[pw]
+	return func(st *State) bool { return m }
 }
 
 func c04r1(c *Ctx, id string) {
@@ -275,7 +295,16 @@ func c04r2(c *Ctx, id string) {
 		c.Undecided(id, "range-literal", 0, "no VbIDRange literal found")
 	}
 	// the writer tests the field at call time
-	for _, pw := range w.positionWriterFuncs() {
+	rangeReadSeen := map[*ssa.Function]bool{}
+	for _, pw0 := range w.positionWriterFuncs() {
+		pw := pw0
+		if core := w.pwCore[pw0]; core != nil { // a mode of a split writer: the test is in the shared part
+			pw = core
+		}
+		if rangeReadSeen[pw] {
+			continue
+		}
+		rangeReadSeen[pw] = true
 		found := false
 		allInstrs(pw, func(instr ssa.Instruction) {
 			cc := callOf(instr)
@@ -303,7 +332,15 @@ func c04r2(c *Ctx, id string) {
 
 func c04r3(c *Ctx, id string) {
 	w := c.W
+	fns := append([]*ssa.Function{}, w.positionWriterFuncs()...)
+	coreSeen := map[*ssa.Function]bool{}
 	for _, pw := range w.positionWriterFuncs() {
+		if core := w.pwCore[pw]; core != nil && !coreSeen[core] {
+			coreSeen[core] = true
+			fns = append(fns, core)
+		}
+	}
+	for _, pw := range fns {
 		vb := w.writerInputs(pw).vb
 		if vb == nil {
 			c.Undecided(id, fname(pw), pw.Pos(), "no vbID parameter")
